@@ -236,7 +236,7 @@ class ReceivePrimitiveTask(Task):
         from pyvc.symcoll import AbsMap
         P = f"C02/{RECVP}"
         g = I.ghost
-        me = Env("dimse")
+        me = Env("dimse", cls=I.repo.cls("pynetdicom.dimse:DIMSEServiceProvider"))
         m = Env("dimse.message")
         m.attrs["context_id"] = I.input("int", "context_id")
         m.truth = True
@@ -244,6 +244,7 @@ class ReceivePrimitiveTask(Task):
         if me.attrs["message"] is None:
             I.cfg.summaries["pynetdicom.dimse_messages:DIMSEMessage"] = lambda I_, a, k: m
         me.attrs["assoc"] = Env("dimse.assoc")
+        me.attrs["dul"] = Env("dimse.dul")
         me.attrs["cancel_req"] = AbsMap(I, "cancel_req")
         kind, val = I.run_function(I.repo.func(RECVP), [me, Env("pdata")])
         I.ob(f"{P}/never-raises-whatever-the-P-DATA-payload-is", kind == "return", detail=f"{kind}:{val!r} (decode_msg {g.get('decode')})")
